@@ -209,10 +209,15 @@ pub fn c07_call() {
     let nargs: u8 = any();
     let (has_target, declared, target_err): (bool, bool, bool) = (any(), any(), any());
     let name_code: u8 = any();
-    crate::sym::assume(nargs <= 3 && name_code <= 2);
+    crate::sym::assume(nargs <= 3 && name_code <= 3 && !(name_code == 3 && has_target));
     // host functions may be named like the parser's internal operators (leading '_' or '@'); only
-    // `f` and `_f` can be written in source, `@f` is replayed as `_f`
-    let fname = if name_code == 0 { "f" } else { "_f" };
+    // `f` and `_f` can be written in source, `@f` is replayed as `_f`; code 3 is the root-qualified
+    // spelling `.f(..)`, whose name (with the dot) is what is looked up and reported
+    let fname = match name_code {
+        0 => "f",
+        3 => ".f",
+        _ => "_f",
+    };
     let log: Arc<Mutex<Vec<String>>> = Arc::new(Mutex::new(Vec::new()));
     let mut ctx = Context::default();
     for k in 0..3usize {
@@ -1073,6 +1078,48 @@ pub fn c07_macro_over_literal() {
     let want: Vec<i64> = (0..n as i64).chain((0..n as i64).map(|j| 100 + j)).collect();
     check!(*log.lock().unwrap() == want, "receiver first (its elements left to right), then the body once per element");
 }
+/// C20: host functions that combine extractors receive the call's data in order, whatever the call style; a missing
+/// argument is an error, never an invocation with other data, and an extractor leaves the remaining arguments intact.
+pub fn c20_extractor_combos() {
+    use cel_interpreter::extractors::{Arguments, Identifier, This};
+    use cel_interpreter::IdedExpr as Expression;
+    let case: u8 = any();
+    crate::sym::assume(case <= 9);
+    let mut ctx = Context::default();
+    ctx.add_variable_from_value("x", Value::Int(5));
+    ctx.add_function("scale", |factor: i64, This(this): This<i64>| factor * 10 + this);
+    ctx.add_function("ident_then_all", |id: Identifier, Arguments(all): Arguments| -> Result<Value, ExecutionError> {
+        let mut out = vec![Value::String(id.0.clone())];
+        out.extend(all.iter().cloned());
+        Ok(Value::List(Arc::new(out)))
+    });
+    ctx.add_function("expr_then_all", |_e: Expression, Arguments(all): Arguments| -> Result<Value, ExecutionError> { Ok(Value::List(all.clone())) });
+    ctx.add_function("two_idents", |a: Identifier, b: Identifier| -> Result<Value, ExecutionError> {
+        Ok(Value::List(Arc::new(vec![Value::String(a.0.clone()), Value::String(b.0.clone())])))
+    });
+    ctx.add_function("ctx_then_ident", |ftx: &cel_interpreter::FunctionContext, id: Identifier| -> Result<Value, ExecutionError> {
+        Ok(Value::List(Arc::new(vec![Value::Int(ftx.args.len() as i64), Value::String(id.0.clone())])))
+    });
+    let s = |t: &str| Value::String(Arc::new(t.to_string()));
+    let l = |v: Vec<Value>| Value::List(Arc::new(v));
+    let (src, want): (&str, Option<Value>) = match case {
+        0 => ("scale(3, 7)", Some(Value::Int(37))),
+        1 => ("7.scale(3)", Some(Value::Int(37))),
+        2 => ("scale(3)", None),
+        3 => ("scale()", None),
+        4 => ("ident_then_all(x, 1, 2)", Some(l(vec![s("x"), Value::Int(5), Value::Int(1), Value::Int(2)]))),
+        5 => ("expr_then_all(x + 1, 2)", Some(l(vec![Value::Int(6), Value::Int(2)]))),
+        6 => ("two_idents(x, y)", Some(l(vec![s("x"), s("y")]))),
+        7 => ("two_idents(x)", None),
+        8 => ("ctx_then_ident(x)", Some(l(vec![Value::Int(1), s("x")]))),
+        _ => ("ident_then_all(1, 2)", None),
+    };
+    let got = Program::compile(src).expect("compiles").execute(&ctx);
+    match want {
+        Some(v) => check!(got == Ok(v), "the host function receives receiver and arguments in order, each exactly as passed"),
+        None => check!(got.is_err(), "a missing or wrongly shaped argument is an execution error, never an invocation with different data"),
+    }
+}
 /// C04 visitor half: a run of k prefix operators applies the operator k times (an even run cancels).
 pub fn c04_prefix() {
     let (op, k, operand): (u8, u8, u8) = (any(), any(), any());
@@ -1623,6 +1670,7 @@ crate::replay_only! {
     #[kani::unwind(2)] c10_body_over_variable: "off", "the five macros with bodies over the iteration variable through Program::compile + execute, against a per-element fold", "5 macros x 4 receivers x 8 bodies";
     #[kani::unwind(2)] c08_unary_minus_float: "off", "Program::compile + Value::resolve NEGATE arm on a double", "bits: all u64";
     #[kani::unwind(2)] c07_macro_over_literal: "off", "the five macros over a list literal of logging calls with a logging body, through Program::compile + execute", "5 macros x 1-4 elements";
+    #[kani::unwind(2)] c20_extractor_combos: "off", "host functions combining This / positional / Identifier / Expression / Arguments / FunctionContext extractors, both call styles, through Program::compile + execute", "ten call shapes";
     #[kani::unwind(2)] c12_literal: "off", "a string / bytes literal token through Program::compile + execute against an independent decoder of the CEL literal syntax", "token text of up to 24 characters taken from the vector";
     #[kani::unwind(2)] c13_string_roundtrip: "off", "int(string(x)) / uint(string(x)) / double(string(x)) through Program::compile + execute", "payload bits from the vector";
     #[kani::unwind(2)] c13_literal: "off", "int / uint literals of every sign, radix and magnitude through Program::compile + execute", "text built from the vector";
